@@ -365,6 +365,7 @@ func ruleAnswers(r *Run) {
 		deferredOK := false
 		for pi := range paths {
 			path := &paths[pi]
+			r.at(path)
 			nPaths++
 			sig := r.pathSig(path)
 			site := fmt.Sprintf("%s:path[%s]", fn.Name, sig)
@@ -600,6 +601,7 @@ func ruleJoinedGuard(r *Run) {
 		r.Analysed(fn, len(paths))
 		for pi := range paths {
 			path := &paths[pi]
+			r.at(path)
 			tested := map[string]bool{}
 			for i, ev := range path.Events {
 				if ev.Kind == EvGuard {
